@@ -12,6 +12,7 @@ def sh(c, **kw):
     return r.returncode, r.stdout
 sh("git -C /repo worktree remove --force %s" % wt)
 rc, o = sh("git -C /repo worktree add -q --detach %s HEAD" % wt)
+res = {}
 meta = {"id": sid, "breaks_property": sid[:3], "base_commit": sh("git -C /repo rev-parse --short HEAD")[1].strip(), "ran": []}
 try:
     rc_clean, o = sh("sh %s/demo.sh %s" % (d, wt), timeout=900)
@@ -23,21 +24,32 @@ try:
     rc_mut, o = sh("sh %s/demo.sh %s" % (d, wt), timeout=900)
     meta["demo_on_changed"] = {"rc": rc_mut, "tail": o[-400:]}
     meta["confirmed"] = bool(meta["patch_applies"] and meta["suite_with_change"]["passes"] and rc_clean == 0 and rc_mut != 0)
+    # our checks against it: a private copy of /verif pointed at the changed worktree (VERIF_REPO), so that /repo itself is
+    # never touched and several seeds can be tried at the same time; the evidence written by the copy is thrown away
+    if meta.get("confirmed") and "--nocheck" not in sys.argv:
+        cv = "/tmp/cv-%s" % sid
+        sh("rm -rf %s && mkdir -p %s && rsync -a --exclude .git --exclude work --exclude 'build/h-*' --exclude seeded %s/ %s/" % (cv, cv, V, cv))
+        sh("cd %s && rm -rf _build" % wt)
+        try:
+            for c in checks:
+                if c.startswith("-"):
+                    continue
+                t = time.time()
+                rc, o = sh("cd %s && VERIF_REPO=%s bin/check %s --tier quick" % (cv, wt, c), timeout=3600)
+                vl = [l for l in o.splitlines() if l.startswith("VIOLATION")]
+                res[c] = {"rc": rc, "violation_lines": vl, "wall_s": round(time.time() - t, 1)}
+                for l in vl:
+                    m = [w for w in l.split() if w.startswith("replay=")]
+                    if m and os.path.exists(m[0][7:]):
+                        try:
+                            rp = json.load(open(m[0][7:]))
+                            res[c]["first_failure"] = json.dumps(rp.get("failures", rp)[:1] if isinstance(rp.get("failures", None), list) else rp, default=str)[:1200]
+                        except Exception:
+                            res[c]["first_failure"] = open(m[0][7:], errors="replace").read()[:1200]
+        finally:
+            sh("rm -rf %s" % cv)
 finally:
     sh("git -C /repo worktree remove --force %s" % wt)
-# our checks against it
-res = {}
-if meta.get("confirmed") and "--nocheck" not in sys.argv:
-    rc, o = sh("git -C /repo apply %s/patch.diff" % d)
-    try:
-        for c in checks:
-            if c.startswith("-"):
-                continue
-            t = time.time()
-            rc, o = sh("cd %s && bin/check %s --tier quick" % (V, c), timeout=3600)
-            res[c] = {"rc": rc, "violation_lines": [l for l in o.splitlines() if l.startswith("VIOLATION")], "wall_s": round(time.time() - t, 1)}
-    finally:
-        sh("git -C /repo checkout -- .")
 meta["our_checks_quick"] = res
 notes = os.path.join(d, "notes.md")
 if os.path.exists(notes):
